@@ -153,7 +153,20 @@ def names_in_chain(real, path, name):
     return kinds
 
 
-def check_space(sp, model, label):
+def check_space(sp, model, label, base=None):
+    if base is not None:
+        # an ItemSpace of ``base``: the space-level references of the base take precedence over model-level ones
+        # there too (names bound by the parameters or by references the parameter formula returns excepted)
+        skip = set(base.parameters or ()) | set(sp._own_refs)
+        for n, v in base._own_refs.items():
+            if n in model.refs and n not in skip and type(v) is int and type(model.refs[n]) is int:
+                try:
+                    got = getattr(sp, n)
+                except Exception as exc:
+                    return ("getattr-raised", "%s: getattr(%r) raised %r" % (label, n, exc))
+                if got != v:
+                    return ("getattr-precedence", "%s.%s = %r, the space-level reference of the base is %r (model-level "
+                                                  "%r)" % (label, n, got, v, model.refs[n]))
     cells = set(sp.cells)
     own = set(sp._own_refs)
     spaces = set(sp.spaces)
@@ -217,7 +230,7 @@ def run_case(case):
                     it = sp(*([1] * len(sp.parameters)))
                 except Exception:
                     continue
-                f = check_space(it, m, "ItemSpace of " + ".".join(op[1]))
+                f = check_space(it, m, "ItemSpace of " + ".".join(op[1]), base=sp)
                 if f:
                     return out.fail(f[0], f[1], i)
             continue
